@@ -8,7 +8,7 @@
   `none` (unknown) after instructions whose flag results the emitted code never reads; reading unknown flags
   is a fault.  Calls through a register go to registered external functions (the helpers) under the System V
   convention: arguments rdi, rsi, rdx, rcx, r8; result rax; caller-saved registers come back holding
-  `Cfg.clobber`.
+  whatever `Cfg.clobber` says for that call and register (any function: the theorems hold for all of them).
 
   Validated against the host CPU on every run of the engine suites: the bytes of `JitEmit.compile` are run by
   this model and by the processor, results and memory digests are compared (DESIGN.md §4).
@@ -252,7 +252,7 @@ structure Cfg where
   codeBase : Nat                           -- address of `code[0]`
   ext : Nat → Option ExtFn                 -- address ↦ external function
   retSentinel : BitVec 64                  -- the return address the caller pushed: returning there ends the run
-  clobber : BitVec 64 := 0                 -- what caller-saved registers hold after an external call
+  clobber : Nat → Nat → BitVec 64 := fun _ _ => 0   -- what caller-saved register `r` holds after the `n`-th external call (n = calls made before it)
 
 structure St where
   reg : Vector (BitVec 64) 16
@@ -433,7 +433,7 @@ def exec (c : Cfg) (s : St) (i : Instr) (next : Nat) : Out :=
       match push s (BitVec.ofNat 64 next) with
       | some s1 =>
         let s2 := { s1 with reg := s.reg, flags := none, log := s.log ++ [(tag, args)], misaligned := mis }
-        let s3 := [RCX, RDX, RSI, RDI, 8, 9, 10, 11].foldl (fun acc r => acc.set r c.clobber) s2
+        let s3 := [RCX, RDX, RSI, RDI, 8, 9, 10, 11].foldl (fun acc r => acc.set r (c.clobber s.log.length r)) s2
         .next (s3.set RAX ret)
       | none => .fault "call: push outside memory"
     | none => .fault "call through a register to an address that is no registered function"
